@@ -30,6 +30,7 @@ class Exec(CMixin, ExprMixin, StmtMixin, CallMixin):
         self.spec_mode = False
         self.spec_env = {}
         self.guards = []
+        self.stmt_lines = set()
         self.obligations = []
         self.notes = set()
         self.frames = []
